@@ -14,6 +14,8 @@ int i0(void) { return -2147483647 - 1; }
 int i1(int a) { return a; }
 int i2_0(int a, int b) { (void)b; return a; }
 int i2_1(int a, int b) { (void)a; return b; }
+double conv(double a) { return a + 0.5; }
+int only1(int a) { return a * 5; }
 long li(int a) { return (long)a * 4294967296L + 7; }
 static int seen = 0;
 void v0(void) { seen = 42; }
